@@ -328,14 +328,18 @@ func (sr *StatusReport) UnmarshalCbor(r io.Reader) error {
 		return fmt.Errorf("Expected array of length 4 or 6, got %d", n)
 	}
 
+	// The announced number of items is not trusted for an allocation; the slice grows with the
+	// items which were actually read.
 	if n, err := cboring.ReadArrayLength(r); err != nil {
 		return err
 	} else {
-		sr.StatusInformation = make([]BundleStatusItem, int(n))
-	}
-	for i := 0; i < len(sr.StatusInformation); i++ {
-		if err := cboring.Unmarshal(&sr.StatusInformation[i], r); err != nil {
-			return fmt.Errorf("Unmarshalling BundleStatusItem failed: %v", err)
+		sr.StatusInformation = make([]BundleStatusItem, 0, maxStatusInformationPos)
+		for i := uint64(0); i < n; i++ {
+			var si BundleStatusItem
+			if err := cboring.Unmarshal(&si, r); err != nil {
+				return fmt.Errorf("Unmarshalling BundleStatusItem failed: %v", err)
+			}
+			sr.StatusInformation = append(sr.StatusInformation, si)
 		}
 	}
 
